@@ -216,7 +216,8 @@ pub fn with_aml(t: &Term, k: &mut dyn FnMut(&dyn Aml)) {
         Term::Name(p, v) => with_aml(v, &mut |inner| k(&aml::Name::new(path(p), inner))),
         Term::Package(es) => with_list(es, Vec::new(), &mut |v| k(&aml::Package::new(v))),
         Term::PackageB(es) => {
-            let mut pb = aml::PackageBuilder::new();
+            // both public ways to obtain an empty builder
+            let mut pb = if es.len() % 2 == 0 { aml::PackageBuilder::new() } else { aml::PackageBuilder::default() };
             for e in es {
                 with_aml(e, &mut |x| pb.add_element(x));
             }
